@@ -247,7 +247,9 @@ fn decode(alpha: &[&str], mut i: u64, _len: u32) -> Vec<String> {
 
 fn structured() -> impl Strategy<Value = Case> {
     let name = prop_oneof![
-        6 => proptest::sample::select(vec!["milk", "tuna", "chunk light tuna", "salt", "sea salt", "Öl", "a", "b", "x y", "", "dairy", "[x", "y]"]).prop_map(|s| s.to_string()),
+        6 => proptest::sample::select(vec!["milk", "tuna", "chunk light tuna", "salt", "sea salt", "Öl", "a", "b", "x y", "", "dairy", "[x", "y]",
+            // the name `categorize` uses for what is in no category; characters that look like the separator
+            "other", "Other", "x｜y", "soy｜sauce", "y", "a¦b", "a│b", "｜", "/", "a/b", "http://x"]).prop_map(|s| s.to_string()),
         1 => "[a-z]{1,4}".prop_map(|s| s),
         // long names (lengths around the powers of two up to 300 bytes), few distinct ones so that they collide
         1 => (proptest::sample::select(vec![31usize, 32, 33, 63, 64, 65, 127, 128, 129, 255, 256, 300]), proptest::sample::select(vec!["x", "é", "ab "])).prop_map(|(n, unit)| {
@@ -268,7 +270,7 @@ fn structured() -> impl Strategy<Value = Case> {
         1 => (name.clone()).prop_map(|n| format!("{n} // trailing comment")),
         1 => Just("[a|b]".to_string()),
     ];
-    let nl = proptest::sample::select(vec!["\n", "\n", "\n", "\r\n", "\n\n"]);
+    let nl = proptest::sample::select(vec!["\n", "\n", "\n", "\r\n", "\n\n", "", "\r"]);
     proptest::collection::vec((line, nl), 0..12).prop_map(|v| {
         let mut pieces = vec![];
         for (l, n) in v {
